@@ -4,6 +4,7 @@ import (
 	"bufio"
 	"fmt"
 	"io"
+	"os"
 	"os/exec"
 	"strconv"
 	"strings"
@@ -57,6 +58,10 @@ func Start(bin string, timeoutMs int) (*Solver, error) {
 		return nil, err
 	}
 	s := &Solver{Bin: bin, cmd: cmd, in: in, w: bufio.NewWriterSize(in, 1<<16), out: bufio.NewReaderSize(out, 1<<16)}
+	if tf := os.Getenv("VF_SMT_TRACE"); tf != "" {
+		f, _ := os.Create(fmt.Sprintf("%s.%d", tf, cmd.Process.Pid))
+		s.Trace = f
+	}
 	if strings.Contains(bin, "cvc5") {
 		s.Send("(set-logic ALL)\n")
 	}
